@@ -41,7 +41,12 @@ MaxDeg(t) == IF t \in Deg1 THEN 1 ELSE IF t \in Deg4 THEN 4 ELSE IF t \in Deg8 T
 Precisions == {"double", "single"}
 Range(p) == IF p = "double" THEN 1022 ELSE 126
 
-Admissible(t, e, p) == Abs(e) * MaxDeg(t) + Margin <= Range(p)
+\* Slack: an implementation may form quantities of up to Slack times the degree the algorithm needs (the square root of
+\* a product of two energies instead of a product of two roots, a squared pivot) without breaking any property: that
+\* halves the range of units it supports, it does not make a result depend on the unit inside that range
+Slack == 2
+
+Admissible(t, e, p) == Abs(e) * Slack * MaxDeg(t) + Margin <= Range(p)
 
 \* the most extreme admissible exponents of a token: where a quantity of too high a degree leaves the range first
 Extreme(t, e, p) == /\ Admissible(t, e, p)
